@@ -1531,6 +1531,40 @@ def result_edges(body, call_block):
     return None
 
 
+def result_edges_any(body, call_block):
+    """result_edges, and the boolean forms `if x.f().is_err() {..}` / `is_ok` / `is_some` / `is_none`"""
+    r = result_edges(body, call_block)
+    if r is not None:
+        return r
+    for bi in sorted(body.live_blocks()):
+        t = body.blocks[bi]["t"]
+        if t["k"] != "switch" or "d:Await" in t["at"][1]:
+            continue
+        term = body.switch_term(bi, expand_vars=True)
+        if term[0] == "discr":
+            continue
+        res = {"switch": bi, "via": "test"}
+        by = defaultdict(list)
+        for v, tg in t["targets"]:
+            by[tg].append(v)
+        by[t["otherwise"]].append("otherwise")
+        for tg, vals in by.items():
+            atom, truth = cond_atoms(term, vals)
+            atom = strip_refs(atom)
+            if truth is None or atom[0] != "call" or not atom[2] or not re.search(r"::(is_err|is_ok|is_some|is_none)$", atom[1]):
+                res = None
+                break
+            inner = strip_refs(atom[2][0])
+            if not (inner[0] == "call" and inner[3] == call_block):
+                res = None
+                break
+            good = truth if re.search(r"::(is_ok|is_some)$", atom[1]) else not truth
+            res["ok" if good else "err"] = tg
+        if res and "ok" in res and "err" in res:
+            return res
+    return None
+
+
 def strip_refs(t):
     while t[0] in ("ref", "deref", "cast"):
         t = t[1]
